@@ -35,7 +35,7 @@ ASSUMPTIONS = [
     'metadata for the dataframe/export checks is non-jagged',
 ]
 ANCHORS = ['Table.sum', 'Table.min', 'Table.max', 'Table.nonzero_counts', 'Table.reduce', 'Table.get_table_density', 'compute_counts_per_sample_stats', '_summarize_table', 'Table.to_dataframe', 'Table.metadata_to_dataframe', '_export_metadata']
-REQUIRED = ['scale_head_cli', 'export_metadata_both_axes_at_once', 'stats_with_stored_zero', 'stats_with_non_finite_count', 'metadata_given_as_tuples', 'reduce_callable_kinds_checked', 'sum_checked', 'minmax_checked', 'minmax_negative_only_vectors',
+REQUIRED = ['reports_printed_to_stdout', 'scale_head_cli', 'export_metadata_both_axes_at_once', 'stats_with_stored_zero', 'stats_with_non_finite_count', 'metadata_given_as_tuples', 'reduce_callable_kinds_checked', 'sum_checked', 'minmax_checked', 'minmax_negative_only_vectors',
             'nonzero_counts_checked', 'trailing_empty_vector_cases',
             'reduce_checked', 'stats_checked', 'summarize_default',
             'summarize_qualitative', 'summarize_observations',
@@ -456,7 +456,9 @@ def run_case(ctx, index):
                 with open(inp, 'w', encoding='utf-8') as f:
                     f.write(t.to_json('vm'))
             q, o = r.choice([(False, False), (True, False), (False, True)])
-            args = ['summarize-table', '-i', inp, '-o', outp]
+            to_stdout = r.random() < .4      # no -o: the report is printed
+            args = ['summarize-table', '-i', inp] + ([] if to_stdout else
+                                                     ['-o', outp])
             if q:
                 args.append('--qualitative')
             if o:
@@ -465,9 +467,19 @@ def run_case(ctx, index):
             if rr.exit_code != 0:
                 fail('summarize-cli-failed', '%r %r' % (rr.output[-300:],
                                                         rr.exception))
-            with open(outp, encoding='utf-8') as f:
-                check_summary(ctx, f.read(), spec, q, o, desc,
+            if to_stdout:
+                # (echo ends what it prints with a newline of its own)
+                out_text = rr.output[:-1] if rr.output.endswith('\n') \
+                    else rr.output
+                check_summary(ctx, out_text, spec, q, o, desc,
                               'C19/summarize-cli')
+                ctx.count('reports_printed_to_stdout')
+                with open(outp, 'w') as f:
+                    f.write('')
+            else:
+                with open(outp, encoding='utf-8') as f:
+                    check_summary(ctx, f.read(), spec, q, o, desc,
+                                  'C19/summarize-cli')
             ctx.count('summarize_cli')
             for flag, ids in (([], spec.samp_ids),
                               (['--observations'], spec.obs_ids)):
@@ -480,13 +492,19 @@ def run_case(ctx, index):
                 ctx.count('table_ids_cli')
             hn, hm = r.randint(1, 7), r.randint(1, 7)
             os.remove(outp)
-            rr = _cli(['head', '-i', inp, '-o', outp, '-n', str(hn), '-m',
-                       str(hm)])
+            head_stdout = r.random() < .4
+            rr = _cli(['head', '-i', inp] + ([] if head_stdout else
+                                             ['-o', outp]) +
+                      ['-n', str(hn), '-m', str(hm)])
             if rr.exit_code != 0:
                 fail('head-cli-failed', '%r %r' % (rr.output[-300:],
                                                    rr.exception))
-            with open(outp, encoding='utf-8') as f:
-                text = f.read()
+            if head_stdout:
+                text = rr.output
+                ctx.count('reports_printed_to_stdout')
+            else:
+                with open(outp, encoding='utf-8') as f:
+                    text = f.read()
             from vm import tsvspec
             o_, s_, D_, _, _ = tsvspec.decode(text)
             if o_ != spec.obs_ids[:hn] or s_ != spec.samp_ids[:hm] or \
